@@ -331,6 +331,57 @@ XML_T = '''<?xml version="1.0" encoding="UTF-8"?>
 '''
 
 
+XML_ENUMS = '''<?xml version="1.0" encoding="UTF-8"?>
+<protocol name="vq_enums">
+  <interface name="vq_owner" version="1">
+    <enum name="kind"><entry name="owner_one" value="1"/><entry name="owner_two" value="2"/></enum>
+    <enum name="flags" bitfield="true"><entry name="of_a" value="1"/><entry name="of_b" value="2"/><entry name="of_ab" value="3"/></enum>
+    <request name="m"><arg name="k" type="uint" enum="kind"/></request>
+  </interface>
+  <interface name="vq_user" version="1">
+    <enum name="kind"><entry name="user_one" value="1"/><entry name="user_nine" value="9"/></enum>
+    <enum name="flags"><entry name="uf_one" value="1"/></enum>
+    <request name="local"><arg name="k" type="uint" enum="kind"/><arg name="f" type="uint" enum="flags"/></request>
+    <request name="remote"><arg name="k" type="uint" enum="vq_owner.kind"/><arg name="f" type="uint" enum="vq_owner.flags"/></request>
+    <event name="missing"><arg name="k" type="uint" enum="vq_nowhere.kind"/><arg name="z" type="uint" enum="nope"/></event>
+  </interface>
+</protocol>
+'''
+
+
+def run_enum_paths(ctx, spec):
+    """local vs `iface.enum` references when both interfaces define an enum of the same name (no shipped protocol has that)"""
+    env.setup()
+    from core.wl import protocol
+    from core.output import Output, stream
+    out = Output(False, False, stream.Null(), stream.Null())
+    d = tempfile.mkdtemp(prefix='verif-c07-')
+    try:
+        p = os.path.join(d, 'enums.xml')
+        open(p, 'w').write(XML_ENUMS)
+        protocol.dump_all()
+        protocol.load(p, out)
+        cands = wlxml.load_candidates([p])
+        for msg, nargs in (('local', 2), ('remote', 2), ('missing', 2)):
+            md = cands['vq_user'][0]['messages'][msg]
+            for i in range(nargs):
+                for val in (0, 1, 2, 3, 4, 9, 2**31):
+                    ctx.ev()
+                    ctx.sig(['enum-path', msg, i, val])
+                    e = wlxml.arg_enum('vq_user', msg, md['args'][i])
+                    es = wlxml.find_enum(cands, 'vq_user', e)
+                    want = wlxml.labels_for(es[0], val) if es else []
+                    got = protocol.look_up_enum('vq_user', msg, i, val)
+                    if got != want:
+                        ctx.violation('enum-path', 'vq_user.%s arg %d (enum=%r) value %d: labels %r, the XML says %r' % (msg, i, md['args'][i]['enum'], val, got, want),
+                                      {'enum_paths': True})
+                        return
+        ctx.sample({'synthetic_enum_paths': 'vq_user.remote(k: enum=vq_owner.kind) while vq_user also defines kind'})
+    finally:
+        import shutil
+        shutil.rmtree(d, ignore_errors=True)
+
+
 def run_versions(ctx, spec):
     env.setup()
     from core.wl import protocol
@@ -381,6 +432,7 @@ def run_versions(ctx, spec):
 def run(ctx, spec):
     if spec.get('mode') == 'versions':
         run_versions(ctx, spec)
+        run_enum_paths(ctx, spec)
     else:
         run_ifaces(ctx, spec)
 
